@@ -85,7 +85,9 @@ impl PreSharedKey {
 }
 
 fn parse_hex_key(s: &str) -> Result<[u8; KEY_SIZE], KeyParseError> {
-    if s.len() == KEY_SIZE * 2 {
+    // Non-ASCII text can have the right byte length without the offsets below being char
+    // boundaries; such a key line has fewer than `KEY_SIZE * 2` characters.
+    if s.len() == KEY_SIZE * 2 && s.is_ascii() {
         let mut r = [0u8; KEY_SIZE];
         for i in 0..KEY_SIZE {
             r[i] = u8::from_str_radix(&s[i * 2..i * 2 + 2], 16)
